@@ -2,9 +2,9 @@
 # tools/save_seed.sh <ID> <variant> <needs> <demo cmd> <detected: yes/no + by which sub-check>
 set -u
 ID=$1; V=$2; NEEDS=$3; CMD=$4; DET=$5
-D=/verif/seeded/$ID-$V; O=/tmp/seed/$ID/_out/$V
+OV=${OUTV:-$V}; D=/verif/seeded/$ID-$OV; O=${SEEDROOT:-/tmp/seed}/$ID/_out/$V
 mkdir -p $D && cp $O/patch.diff $D/ && cp $O/demo_test.go $D/ 2>/dev/null; cp $O/README.md $D/README.agent.md 2>/dev/null
-python3 - "$ID" "$V" "$NEEDS" "$CMD" "$DET" <<'PY'
+python3 - "$ID" "$OV" "$NEEDS" "$CMD" "$DET" <<'PY'
 import json,sys,subprocess
 ID,V,NEEDS,CMD,DET=sys.argv[1:6]
 head=subprocess.check_output(['git','-C','/repo','rev-parse','--short','HEAD']).decode().strip()
